@@ -39,6 +39,21 @@ Definition fres (s o a : N) (p : bytes) : bytes :=
   if pong s || (s =? 4) then
     (if a =? 100 then match arg_of p with Some x => enc_str (bs "re:" ++ x ++ bs "#1") | None => [] end else [])
   else le 8 42.
+(* the generic actions every object built with NewBasicObject answers itself (bus/object_stub_gen.go),
+   used by part (x) of the harness to switch the per-object statistics and traces on and off while
+   several connections call the object: unregisterEvent 1, enableStats 81, clearStats 83, enableTrace 85
+   return nothing; registerEvent 0 returns the user id it was given (payload: object, signal, user id);
+   isStatsEnabled 80 / isTraceEnabled 84 return one boolean and stats 82 a map: results that depend on
+   the calls made before (the harness checks the booleans against what was last set) *)
+Definition generic_void (a : N) : bool := (a =? 1) || (a =? 81) || (a =? 83) || (a =? 85).
+Definition generic_bool (a : N) : bool := (a =? 80) || (a =? 84).
+Definition reply_ok (s o a : N) (p r : bytes) : bool :=
+  if generic_void a then eqb_bytes r []
+  else if a =? 0 then eqb_bytes r (skipn 8 p)
+  else if generic_bool a then eqb_bytes r [byte_of_N 0] || eqb_bytes r [byte_of_N 1]
+  else if a =? 82 then true
+  else eqb_bytes r (fres s o a p).
+
 Definition okargs (s o a : N) (p : bytes) : bool :=
   if pong s then match arg_of p with Some _ => true | None => false end else true.
 Definition callerr (s o a : N) (p : bytes) : bool :=
@@ -116,8 +131,7 @@ Definition answer_ok (cf : cfg) (t : tcase) (e : list N * zpay) : bool :=
     Nat.eqb (count_key [T_Post] k (tc_c2s t)) 0 &&
     (if htype (fst e) =? T_Reply then
        match find_call k (tc_c2s t) with
-       | Some p => eqb_bytes (unz (snd e))
-                     (fres (nth 1 (fst e) 0) (nth 2 (fst e) 0) (nth 3 (fst e) 0) (unz p))
+       | Some p => reply_ok (nth 1 (fst e) 0) (nth 2 (fst e) 0) (nth 3 (fst e) 0) (unz p) (unz (snd e))
        | None => false
        end
      else true)
